@@ -213,6 +213,68 @@ fn t_pwhash_from_string(i: &Input) -> Outcome {
     Ok(())
 }
 
+/// s: a WELL-FORMED Argon2 string `$argon2id$v=19$m=<M>,t=<T>,p=1$<salt>$<hash>` whose memory parameter may be as large as
+/// the format allows (M up to 2^32 - 1 KiB).  The string is only PARSED (nothing is hashed: that would need M KiB):
+/// `crypto_pwhash_str_needs_rehash` decides as libsodium does, `PwHash::from_string` returns without panicking, and the
+/// parsed configuration carries exactly 1024 * M bytes and T passes (seen through the serialised Config and through the
+/// `to_string()` round trip).
+fn t_pwhash_parse_costs(i: &Input) -> Outcome {
+    use dryoc::pwhash::VecPwHash;
+    let s = as_str(i);
+    let num_after = |key: &str| -> u64 {
+        let seg = s.split('$').find(|seg| seg.starts_with("m=")).unwrap_or_else(|| panic!("{} no parameter segment in '{}'", HARNESS, s));
+        let item = seg.split(',').find(|it| it.starts_with(key)).unwrap_or_else(|| panic!("{} no {} in '{}'", HARNESS, key, s));
+        item[key.len()..].parse::<u64>().unwrap_or_else(|_| panic!("{} bad number in '{}'", HARNESS, item))
+    };
+    let (m_kib, t) = (num_after("m="), num_after("t="));
+    if m_kib > u32::MAX as u64 || t > u32::MAX as u64 {
+        panic!("{} pwhash_parse_costs needs m and t that fit in 32 bits", HARNESS);
+    }
+    let mem = (m_kib * 1024) as usize;
+    // libsodium must accept the string as well formed (harness check) ...
+    if so::pwhash_str_needs_rehash(&s, t, mem) != Some(false) || so::pwhash_str_needs_rehash(&s, t + 1, mem) != Some(true) {
+        panic!("{} libsodium does not read '{}' as m={} KiB, t={}", HARNESS, s, m_kib, t);
+    }
+    // ... and so must dryoc, with the same decisions
+    for (ops, lim) in [(t, mem), (t + 1, mem), (t, mem - 1024), (t, 8192), (1, 8192)] {
+        let want = so::pwhash_str_needs_rehash(&s, ops, lim);
+        let got = crypto_pwhash_str_needs_rehash(&s, ops, lim).ok();
+        if want != got {
+            return fail(
+                format!("{:?}", want),
+                format!("{:?}", got),
+                format!("crypto_pwhash_str_needs_rehash('{}', opslimit {}, memlimit {}) differs from libsodium (None = error)", s, ops, lim),
+            );
+        }
+    }
+    let p = must_ok(VecPwHash::from_string(&s), &format!("PwHash::from_string('{}')", s))?;
+    let back = p.to_string();
+    let (hash, _salt, config) = p.into_parts();
+    let view = match serde_json::to_value(&config) {
+        Ok(v) => v,
+        Err(e) => panic!("{} cannot serialise Config: {}", HARNESS, e),
+    };
+    let field = |name: &str| -> u64 {
+        match view.get(name).and_then(|v| v.as_u64()) {
+            Some(v) => v,
+            None => panic!("{} serialised Config has no numeric field {}: {}", HARNESS, name, view),
+        }
+    };
+    for (name, want) in [("memlimit", mem as u64), ("opslimit", t), ("hash_length", hash.len() as u64)] {
+        if field(name) != want {
+            return fail(
+                want.to_string(),
+                field(name).to_string(),
+                format!("PwHash::from_string('{}'): Config::{} of the parsed hash (string says m={} KiB, t={})", s, name, m_kib, t),
+            );
+        }
+    }
+    if back != s {
+        return fail(s.clone(), back, "PwHash::from_string(s).to_string() does not reproduce the string");
+    }
+    Ok(())
+}
+
 // ---------------------------------------------------------------------
 // Constructed inputs: the Poly1305 accumulator ends on p-2 .. 2^130+1 after the last block (in particular in
 // [p, 2^130), where the final conditional subtraction of p is taken).  Random data reaches this with probability
@@ -372,6 +434,7 @@ pub const C04: Registry = &[
     ("pwhash_str_verify", t_pwhash_str_verify),
     ("pwhash_str_needs_rehash", t_pwhash_str_needs_rehash),
     ("pwhash_from_string", t_pwhash_from_string),
+    ("pwhash_parse_costs", t_pwhash_parse_costs),
 ];
 
 /// Keeps the password-hash strings cheap: any m= / t= number that parses as
@@ -730,6 +793,32 @@ pub fn c04(ctx: &mut Ctx) -> Search {
     for s in pwhash_strings(&mut ctx.rng, t) {
         for case in ["pwhash_str_verify", "pwhash_str_needs_rehash", "pwhash_from_string"] {
             ctx.run(case, Input::new().b("s", s.as_bytes()))?;
+        }
+    }
+
+    // well-formed strings with memory / pass parameters up to the 32-bit maximum: parsed only, never verified
+    {
+        use base64::Engine as _;
+        let b64 = base64::engine::general_purpose::STANDARD_NO_PAD;
+        let mut rng_p = Rng::new(0xC0477 + t as u64);
+        let mut ms: Vec<u64> = vec![8, 65536, 1048576, 4194303, 4194304, 4194305, 8388608, 4294967295];
+        let mut ts: Vec<u64> = vec![1, 3, 4294967294];
+        if t {
+            ms.extend_from_slice(&[9, 1000, 2097152, 4194306, 6291456, 2147483647, 2147483648, 4294967294]);
+            ts.extend_from_slice(&[2, 65536, 2147483648]);
+        }
+        for (j, m) in ms.iter().enumerate() {
+            for (k2, tc) in ts.iter().enumerate() {
+                if !t && k2 > 0 && j % 3 != k2 % 3 {
+                    continue;
+                }
+                // (libsodium only decodes strings shorter than crypto_pwhash_STRBYTES = 128 characters)
+                let (salt_len, hash_len) = ([16usize, 8, 24][(j + k2) % 3], [32usize, 16, 24][(j + 2 * k2) % 3]);
+                let (salt, hash) = (rng_p.bytes(salt_len), rng_p.bytes(hash_len));
+                let alg = if *tc >= 3 && (j + k2) % 4 == 3 { "argon2i" } else { "argon2id" };
+                let s = format!("${}$v=19$m={},t={},p=1${}${}", alg, m, tc, b64.encode(&salt), b64.encode(&hash));
+                ctx.run("pwhash_parse_costs", Input::new().b("s", s.as_bytes()))?;
+            }
         }
     }
 
